@@ -16,6 +16,13 @@ CLAIMED = {
         design="DESIGN.md 3/C10",
     ),
 }
+CLAIMED["C09"] = dict(
+    level="exploration",
+    technique="bounded-exhaustive enumeration of command sequences over the 20 path commands (walker state machine) + all 1-2 command substitutions in long paths + shape parameter lattice, vs independent path interpreter",
+    text="Every command sequence up to the length bound (with degenerate argument variants), every single/double substitution in three long base paths and a lattice of basic-shape parameters is pushed through every public path rewrite; results are interpreted by an independent SVG path interpreter (R1) and compared subpath by subpath (structure, end points, closedness, two-sided distance, signed area). Exhaustive within the stated bounds.",
+    note="Trusted: R1 interpreter/arc geometry (self-tested); inputs on a 1/8 lattice; arcs with distinct end points closer than 1e-7 are excluded as ill-conditioned (their meaning is discontinuous under the rewrites' 1e-9 snapping).",
+    design="DESIGN.md 3/C09",
+)
 NOT_YET = "check not built yet in this session (design in DESIGN.md section 3); no claim is made"
 
 checks = []
